@@ -86,7 +86,11 @@ func (h Handler) ServeHTTP(w http.ResponseWriter, r *http.Request) (int, error) 
 
 		fpath := r.URL.Path
 		// We trim those characters because they are served as plain text if appended after .php on Windows
-		fpath = strings.TrimRight(fpath, " .")
+		// (a last segment made only of those characters, such as "." or "..", is a path element: trimming
+		// it would turn /dir/.. into /dir/, which is not the path the matchers before this handler saw)
+		if seg := fpath[strings.LastIndex(fpath, "/")+1:]; strings.Trim(seg, " .") != "" {
+			fpath = strings.TrimRight(fpath, " .")
+		}
 
 		if idx, ok := httpserver.IndexFile(h.FileSys, fpath, rule.IndexFiles); ok {
 			fpath = idx
